@@ -43,6 +43,8 @@ def run(pid, tier):
             matched[key] = matched.get(key, 0) + 1
     o.extra['events_by_kind'] = kinds
     if pid == 'C01':
+        import zig
+        zig.collect(o, pid, tier, toy=False)
         w = [json.loads(x) for x in lines]
         same = sum(1 for e in w if e.get('wa') == e.get('wb'))
         o.extra['wire_events'] = len(w); o.extra['judged_same_word_count'] = same
@@ -57,7 +59,8 @@ def run(pid, tier):
     o.samples.append({'kind': 'paired execution event', 'event': {k: v for k, v in json.loads(lines[len(lines) // 2]).items() if k not in ('sb', 'gn')}})
     if pid == 'C01':
         o.assumptions = [
-            'ONLY the composition layer is decided: ChiSquared, StudentT, FisherF, Pert, Exp, Gamma(shape <= 1), Normal(0,1) are the documented functions of the crate\'s own primitives '
+            'ziggurat part (StandardNormal, Exp1): tables against the structural equations (ZigTables.tla) and executions against the ZIGNOR automaton (TraceZig.tla: layer, sign, word count, result region, tail sign), exactly as for C06',
+            'ONLY the composition layer is decided otherwise: ChiSquared, StudentT, FisherF, Pert, Exp, Gamma(shape <= 1), Normal(0,1) are the documented functions of the crate\'s own primitives '
             '(StandardNormal, Exp1, Gamma with shape > 1, Beta) evaluated with the public API on a clone of the stream',
             'NOT decided: the laws of the primitives themselves (ziggurat: structure only, C06; Marsaglia-Tsang, Cheng BB/BC, Michael-Schucany-Haas, the inverse-CDF one-liners) and of every family not listed; '
             'no density, CDF or tail probability is evaluated anywhere (TLC cannot; DESIGN 3)',
